@@ -32,8 +32,9 @@ def run_cases(c, cases, mode, schema=SCHEMA):
     p = vlib.run_harness(binary, [c.path("cases.ndjson"), c.path("trace.ndjson"), schema], timeout=3000)
     if p.returncode != 0:
         raise vlib.ToolError("cexec failed: " + p.stderr[-2000:])
-    v = vlib.run_tlc("gql/ExecTrace.tla", "gql/ExecTrace.cfg", env={"TRACE": c.path("trace.ndjson"), "SCHEMA": schema, "MODE": mode},
-                     workers=8, timeout=6000, keep_lines=50, xmx="12g")
+    v = vlib.run_tlc_sliced("gql/ExecTrace.tla", "gql/ExecTrace1.cfg", c.path("trace.ndjson"), env={"SCHEMA": schema, "MODE": mode},
+                            slices=8, timeout=6000, keep_lines=50, xmx="3g")
+    c.add_tlc("V ExecTrace (%s)" % mode, v)
     verdicts = {t[1]: t[2] for t in v.tagged("VERDICT")}
     obs = vlib.read_ndjson(c.path("trace.ndjson"))
     if len(verdicts) != len(obs):
